@@ -14,3 +14,7 @@ pub fn tag_key_lower(g: u16, e: u16) -> String {
 pub fn tag_key_nopad(g: u16, e: u16) -> String {
     format!("{g:X}{e:X}")
 }
+/// selector step text form `TAG[ITEM]` (dicom_core::ops::AttributeSelectorStep, documented form)
+pub fn selector_nested(tag: u32, item: u32) -> String {
+    format!("{tag}[{item}]")
+}
